@@ -6,7 +6,7 @@ from fractions import Fraction
 
 from . import e2_formula as F
 from .core import AnchorError, Unsupported
-from .e1_srcmodel import dotted, walk_no_nested, parent, ancestors
+from .e1_srcmodel import dotted, walk_no_nested, parent, ancestors, utext
 from .e2_eval import Evaluator, is_unknown, need, const_from_node
 from .e3_spaces import Arr, Idx, Ix, Typer
 
@@ -46,7 +46,7 @@ def r1_cbtf(ctx):
     for node in T.checked:
         if id(node) not in bad:
             ctx.ok(f"cbtf: `{ast.unparse(node)[:70]}` boundary / interior index spaces agree", node)
-    t = ast.unparse(fn).replace(" ", "")
+    t = utext(fn)
     ok = "qset=locate.flippv(bset,lt)" in t and "lt=m.shape[0]" in t
     ctx.check(ok, "cbtf: the interior set is the complement of the boundary set in the full equation set", fn)
     # --- the enforced boundary acceleration is returned exactly, the interior acceleration comes from the solver
@@ -62,7 +62,7 @@ def r1_cbtf(ctx):
     Mqb, Bqb = F.sym("Mqb"), F.sym("Bqb")
 
     def sub(node, ev):
-        tt = ast.unparse(node).replace(" ", "")
+        tt = utext(node)
         return {"a[:,pvnz]": A, "Omega[pvnz]": W, "b[qb]": Bqb, "m[qb]": Mqb}.get(tt, NotImplemented)
 
     ev = Evaluator(env={"a": A}, src=ctx.src, subscript=sub, store_accept=lambda b_, i, st: b_ == "v",
@@ -82,7 +82,7 @@ def r1_cbtf(ctx):
     ctx.check(ok, "cbtf: velocity = i W displacement on every row", fn)
     # --- the fixed-base interior system has no rigid-body modes
     calls = [c for c in ast.walk(fn) if isinstance(c, ast.Call) and dotted(c.func) == "ode.SolveUnc"]
-    ok = len(calls) == 1 and [ast.unparse(a).replace(" ", "") for a in calls[0].args] == ["m[qq]", "b[qq]", "k[qq]"] and \
+    ok = len(calls) == 1 and [utext(a) for a in calls[0].args] == ["m[qq]", "b[qq]", "k[qq]"] and \
         any(k.arg == "rb" and ast.unparse(k.value) == "[]" for k in calls[0].keywords)
     ctx.check(ok, "cbtf: the interior (fixed-boundary) system is solved with rb=[] - no mode may be treated as rigid-body (the default would auto-detect "
                   "soft fixed-base modes and ignore their stiffness and damping)", calls[0] if calls else fn)
@@ -118,7 +118,7 @@ def r2_conversion(ctx):
     fn = ctx.src.func(CB, "cbconvert")
     L, mc = F.sym("L"), F.sym("mc")
     ev = Evaluator(env={"lengthconv": L, "massconv": mc}, src=ctx.src,
-                   cond=lambda t_, ev: True if ast.unparse(t_).replace(" ", "") == "lq>0" else None,
+                   cond=lambda t_, ev: True if utext(t_) == "lq>0" else None,
                    call=lambda node, ev: (F.const(1) if dotted(node.func) == "np.ones" else NotImplemented))
     for s in fn.body:
         if isinstance(s, ast.Assign) and ast.unparse(s.targets[0]).replace(" ", "") in ("C", "D", "C[b[trn]]", "D[b[trn]]", "D[b[rot]]", "c", "C[q]", "D[q]"):
@@ -140,7 +140,7 @@ def r2_conversion(ctx):
     inv = {"L": 1 / L, "mc": 1 / mc}
     ok = all((w * w.subs(inv)).equals(1) for w in want.values()) and cq is not None and (cq * cq.subs(inv) * cq * cq.subs(inv)).equals(1)
     ctx.check(ok, "cbconvert: converting with the reciprocal factors undoes the conversion on translations, rotations and modal DOF", fn)
-    t = ast.unparse(fn).replace(" ", "")
+    t = utext(fn)
     ok = "M=ytools.multmd(M,C)" in t and "ifnotdrm:M=ytools.multmd(D,M)" in t.replace("\n", "") and "trn=ytools.mkpattvec([0,1,2],lb,6).ravel()" in t and "rot=trn+3" in t
     ctx.check(ok, "cbconvert: C scales the columns, D the rows (rows only for square matrices); translations are DOF 1-3 and rotations DOF 4-6 of each boundary grid", fn)
     # uset_convert: exactly the rows that hold lengths
@@ -157,9 +157,9 @@ def r2_conversion(ctx):
     ctx.check(ok, "uset_convert: the length factor is applied to exactly the rows that hold lengths - row 1 (grid location) and row 3 (origin of the grid's "
                   "output coordinate system); row 2 holds ids and rows 4-6 direction cosines", fn, ks)
     rb = ctx.src.func(N2P, "rbgeom_uset")
-    ok = ast.unparse(rb).replace(" ", "").count("loc2=t@(loc-uset.iloc[i+2,1:]).values") == 2
+    ok = utext(rb).count("loc2=t@(loc-uset.iloc[i+2,1:]).values") == 2
     ctx.check(ok, "rbgeom_uset (sibling witness): the location (row 1) and the origin (row 3) of a grid are subtracted from each other, so they must share units", rb)
-    ok = "lengthconv=_get_conv_factors(conv)[0]" in ast.unparse(fn).replace(" ", "") and "uset=uset.copy()" in ast.unparse(fn).replace(" ", "")
+    ok = "lengthconv=_get_conv_factors(conv)[0]" in utext(fn) and "uset=uset.copy()" in utext(fn)
     ctx.check(ok, "uset_convert: works on a copy with the length factor of the requested conversion", fn, nontrivial=False)
 
 
@@ -180,7 +180,7 @@ def r3_reorder(ctx):
                 doms = [ast.unparse(a.test) for a in ancestors(sub) if isinstance(a, ast.If) and any(sub is y for x in a.body for y in ast.walk(x))]
                 ctx.check(ok and "drm" in doms, f"cbreorder: `{ast.unparse(sub)}` permutes columns only, and only for a data recovery matrix", sub)
     ctx.check(n == 4, "cbreorder: four reordering sites", fn, n, nontrivial=False)
-    t = ast.unparse(fn).replace(" ", "")
+    t = utext(fn)
     ok = "q=locate.flippv(b,lt)" in t and "iflast:pv=np.hstack((q,b))else:pv=np.hstack((b,q))" in t.replace("\n", "")
     ctx.check(ok, "cbreorder: the new order is (b, q) or (q, b) with q the complement of b", fn)
 
